@@ -46,6 +46,13 @@ $(B)/asan/repo/fitter/%.o: $(REPO)/src/fitter/%.c
 $(B)/asan/repo/core/%.o: $(REPO)/src/core/%.cpp
 	@mkdir -p $(dir $@)
 	$(CXX) $(CXX11_R) $(SAN) -c $< -o $@
+# the command-line tools, compiled as they are and then their symbol `main` renamed (objcopy) so that the harness
+# can call them (C07: exit status on damaged files); renaming after compilation keeps main's implicit `return 0`
+$(B)/asan/repo/tools/%.o: $(REPO)/src/tools/%.cpp
+	@mkdir -p $(dir $@)
+	$(CXX) $(CXX11_R) $(SAN) -c $< -o $@.tmp.o
+	objcopy --redefine-sym main=psv_tool_$*_main $@.tmp.o $@
+	@rm -f $@.tmp.o
 $(B)/asan/repo/cinter/%.o: $(REPO)/src/cinter/%.cpp
 	@mkdir -p $(dir $@)
 	$(CXX) $(CXX11_R) $(SAN) -c $< -o $@
